@@ -12,8 +12,9 @@ RULE = ("random context-free grammars (ambiguous ones, epsilon productions and e
         "implementation's own normal form), LLOneParser.get_llone_parse_tree (LL(1) grammars) and "
         "RecursiveDecentParser.get_parse_tree (grammars without epsilon productions and unit cycles; left and right "
         "expansion) is validated by the exact tree checker, its get_leftmost_derivation / get_rightmost_derivation "
-        "listings by the derivation checker, and refusals are compared with the membership oracle. FCFG trees are "
-        "covered under C18's generator. Non-trivial: >=2 productions, one with a body of length >=2.")
+        "listings by the derivation checker, and refusals are compared with the membership oracle. FCFG.get_parse_tree: "
+        "random feature grammars (as in C18) x all words of length <=3/4, every tree validated against the skeleton "
+        "grammar by the same checkers, membership / refusal against the instantiated grammar. Non-trivial: >=2 productions, one with a body of length >=2.")
 LEVEL = "proof"
 THEOREMS = ["Pfl.RecDescent.rdMatch_of_derives",
             "Pfl.RecDescent.parse_valid",
@@ -33,8 +34,9 @@ THEOREMS = ["Pfl.RecDescent.rdMatch_of_derives",
 
 
 def generate(rng, tier):
+    from . import c18
     while True:
-        yield {"g": G.gen_cfg(rng, max_vars=3, max_prods=6, adversarial=False)}
+        yield {"g": G.gen_cfg(rng, max_vars=3, max_prods=6, adversarial=False), "fg": c18.gen_fcfg(rng)}
 
 
 def sym_json(x):
@@ -164,4 +166,38 @@ def run_case(case, drv):
                     res.violation("rd.get_parse_tree", "non-member is not refused with NotParsableException",
                                   detail={"word": w, "impl": got if got[0] != "ok" else "tree"})
                     break
+    # ---- FCFG trees (Earley parser of feature grammars): every tree against the skeleton grammar, membership
+    # against the instantiated grammar ------------------------------------------------------------------------
+    if case.get("fg") is not None:
+        fcfg_trees(case["fg"], drv, res)
     return res
+
+
+def fcfg_trees(gs, drv, res):
+    from . import c18
+    st, fg = outcome(lambda: c18.build_fcfg(gs))
+    if st != "ok":
+        res.tag("fcfg_build_fail")
+        return
+    plain = c18.instantiate(gs)
+    ters = sorted(gs["ters"])
+    words = G.words_upto(ters, 3 if len(ters) > 2 else 4)[:40]
+    mem = drv.call("cfg.member", G=plain, words=words)
+    base = {"vars": [], "ters": ters, "start": "S",
+            "prods": [[h[0], [[i[0], i[1]] for i in body]] for h, body in gs["prods"]]}
+    for w, m in zip(words, mem):
+        if m is None:
+            continue
+        got = outcome(lambda w=w: fg.get_parse_tree(w), limit=3.0)
+        res.evals += 1
+        if m:
+            if got[0] != "ok":
+                res.violation("FCFG.get_parse_tree", "member is refused: %s" % (got,), detail={"word": w, "grammar": gs})
+                break
+            if not check_tree(res, drv, "FCFG.get_parse_tree", base, got[1], w):
+                break
+        elif got != ("exc", "NotParsableException"):
+            res.violation("FCFG.get_parse_tree", "non-member is not refused with NotParsableException",
+                          detail={"word": w, "impl": got if got[0] != "ok" else "tree", "grammar": gs})
+            break
+    res.tag("fcfg_trees")
